@@ -50,6 +50,10 @@ def ref_coefficients(accuracy):
 def check(ctx):
     accs = [2, 4, 6, 8, 10, 12] if ctx.quick else [2, 4, 6, 8, 10, 12, 14, 16, 18]
     cases = [{"kind": "eig", "acc": a, "g": g, "s": s} for a, g, s in itertools.product(accs, range(len(GRIDS)), range(len(SAMP)))]
+    hacc = [2, 4, 6, 8]
+    for s in range(len(SAMP)):
+        for seq in list(itertools.permutations(hacc, 2)) + ([] if ctx.quick else list(itertools.permutations(hacc, 3))):
+            cases.append({"kind": "eig-history", "seq": list(seq), "s": s})
     for order, scope, s in itertools.product((1, 2), ("propagator", "full"), range(len(SAMP))):
         cases.append({"kind": "vacuum", "order": order, "scope": scope, "s": s})
     for p, b, d in itertools.product(("atoms", "fp2"), ("probe", "pw"), ("waves", "pix")):
@@ -68,6 +72,31 @@ def run_case(c):
         if sum(1 for v in viol if v["key"] == key) < 2:
             viol.append({"key": key, "msg": "%s (%s)" % (msg, c)})
 
+    if c["kind"] == "eig-history":
+        # several operators of DIFFERENT accuracy are used one after another on the same grid in one process (all ordered pairs / triples):
+        # each must give its own stencil's eigenvalues whatever was used before
+        gpts, samp = GRIDS[0], SAMP[c["s"]]
+        N, M = gpts
+        x = np.arange(N)[:, None]
+        y = np.arange(M)[None]
+        modes = [(1, 0), (0, 1), (2, 3), (N // 2, M // 2 - 1)]
+        basis = np.stack([np.exp(2j * np.pi * (p * x / N + q * y / M)) for p, q in modes]).astype(np.complex64)
+        from abtem.core.axes import OrdinalAxis
+
+        worst = 0.0
+        for k, acc in enumerate(c["seq"]):
+            coef, offs = ref_coefficients(acc)
+            lam = np.array([sum(ck * (np.exp(2j * np.pi * j * p / N) / samp[0] ** 2 + np.exp(2j * np.pi * j * q / M) / samp[1] ** 2) for ck, j in zip(coef, offs)) for p, q in modes])
+            w = abtem.Waves(basis.copy(), energy=100e3, sampling=samp, ensemble_axes_metadata=[OrdinalAxis(values=tuple(range(len(modes))))])
+            out = np.asarray(LaplaceOperator(acc).apply(w).array)
+            got = (out * np.conj(basis)).mean(axis=(-2, -1))
+            e = float(np.abs(got - lam).max()) / float(np.abs(lam).max())
+            worst = max(worst, e / 1e-4)
+            if not e <= 1e-4:
+                bad("eigenvalue/after-other-accuracy", "accuracy %d used after accuracies %r on the same grid: eigenvalues %r, its own stencil gives %r" % (
+                    acc, list(c["seq"][:k]), np.round(got.real, 4).tolist(), np.round(lam.real, 4).tolist()))
+                break
+        return {"viol": viol, "obs": "seq", "tr": len(c["seq"]), "ref": len(c["seq"]), "err": worst}
     if c["kind"] == "eig":
         gpts, samp = GRIDS[c["g"]], SAMP[c["s"]]
         N, M = gpts
